@@ -1205,7 +1205,7 @@ def _run(ck: core.Check, env: Env, info):
     info = dict(info, resolves=resolves)
     cases = gen_cases(ck, info)
     # which cases also get the later steps (builds, inference, value propagation)
-    n_steps = ck.pick(420, 4000)
+    n_steps = ck.pick(420, 2800)
     idx = list(range(len(cases)))
     def steppable(c):
         ds = [d for v in c.get("lists", {}).values() for d in v] + list(c.get("singles", {}).values())
@@ -1278,7 +1278,7 @@ def _run(ck: core.Check, env: Env, info):
     n_ort = 0
     for mod in env.mods:
         for prog in ORT_PROGS:
-            for rep in range(ck.pick(1, 8)):
+            for rep in range(ck.pick(1, 5)):
                 seed = rng.randrange(1 << 30)
                 n_ort += 1
                 ck.count(("ort", mod, prog))
